@@ -7,7 +7,7 @@ from loadsim import FsSim, make_enforcer, enc_defaults, observe, model_history, 
 
 GEN = ['GPolicy.v', 'GChecks.v', 'GParser.v']
 
-OPS = ['write_main', 'empty_main', 'touch_main', 'delete_main',
+OPS = ['write_main', 'empty_main', 'touch_main', 'delete_main', 'restore_main',
        'write_d1', 'empty_d1', 'touch_d1', 'delete_d1', 'write_d2', 'delete_d2',
        'write_d1b', 'subdir_d1', 'dot_d1']
 DEFAULT_SETS = {
@@ -33,6 +33,8 @@ def apply_op(fs, op, k):
         fs.touch_main()
     elif op == 'delete_main':
         fs.delete_main()
+    elif op == 'restore_main':
+        fs.restore_main()
     elif op == 'write_d1':
         fs.write('policy.d', 'a.yaml', {'alpha': tag} if k % 2 else {'beta': tag, 'gamma': tag}, 'json')
     elif op == 'empty_d1':
